@@ -81,8 +81,11 @@ def civil_from_days(z):
 
 def _rand_amount(rng, big=False):
     c = rng.random()
-    if c < 0.15:
+    if c < 0.12:
         return rng.choice([0, 1, -1, 99, 100, -100, 10**9, -(10**9)])
+    if c < 0.24:
+        # round amounts: whole multiples of a unit (exactly one day, minus one day, 48 hours, ...)
+        return rng.choice(list(UNITS.values())) * rng.choice([1, -1, 1, -1, 2, -2, 24, -24, 60, -60, 7, 1000, -1000])
     if c < 0.55:
         return rng.randrange(-(10**6), 10**6)
     if c < 0.85:
@@ -275,6 +278,10 @@ def gen_run(seed: int):
         elif op[0] == "sauto":
             op[1] = rng.choice([-1, 1]) * rng.randrange(1, 2**50)
         progs[t].append(op)
+    if rng.random() < 0.3:
+        for t in range(nthreads):
+            for _ in range(rng.randrange(1, 4)):
+                progs[t].insert(rng.randrange(len(progs[t]) + 1), ["mkz", (t + rng.randrange(2)) % 2, rng.choice(["utc", "utc", "zone", "cal"])])
     spec["threads"] = progs
     spec["strategy"] = _strategy(rng, nthreads)
     return spec
@@ -326,10 +333,15 @@ def _gen_sys(rng, spec):
         return rng.randrange(INST_MIN // 2, INST_MAX // 2)
 
     spec["os0"] = os_time()
+    if rng.random() < 0.3:
+        # start inside a UTC day; the driver will later put the OS clock exactly on day boundaries
+        spec["os0"] = (spec["os0"] // NS_DAY) * NS_DAY + rng.randrange(1, NS_DAY) if INST_MIN < spec["os0"] < INST_MAX - NS_DAY else spec["os0"]
     driver = []
     for _ in range(rng.randrange(0, 12)):
         c = rng.random()
-        if c < 0.4:
+        if c < 0.15:
+            driver.append(["sysmidnight", rng.choice([1, 1, 1, 0, 2]), rng.choice([0, 0, 0, 1, -1])])
+        elif c < 0.4:
             driver.append(["systick", rng.randrange(1, 10**9)])
         elif c < 0.6:
             driver.append(["systick", -rng.randrange(1, 10**12)])  # backward jump
@@ -340,8 +352,8 @@ def _gen_sys(rng, spec):
     progs = [driver]
     for _ in range(nreaders):
         p = []
-        for _ in range(rng.randrange(1, 6)):
-            p.append(["sysinst"] if rng.random() < 0.25 else ["sysread"])
+        for _ in range(rng.randrange(1, 9)):
+            p.append(["sysinst"] if rng.random() < 0.2 else ["sysread"])
         progs.append(p)
     spec["threads"] = progs
     spec["prewarm_instance"] = rng.random() < 0.4
@@ -388,7 +400,13 @@ def _dur(ns):
 
 
 def _ns_of_instant(env, i):
-    return (i - env.epoch).to_nanoseconds()
+    ns = (i - env.epoch).to_nanoseconds()
+    # the value must also *be* that instant: equal to, and hashing like, the Instant built from the same nanoseconds
+    if INST_MIN <= ns <= INST_MAX:
+        ref = _inst(env, ns)
+        if not (i == ref) or hash(i) != hash(ref):
+            env.denormalised.append(ns)
+    return ns
 
 
 def _canon_date(d):
@@ -475,6 +493,7 @@ def _setup(spec):
     env.spec = spec
     env.epoch, env.notes = _consts()
     env.render_cache = {}
+    env.denormalised = []
     env.hist = []
     if spec["mode"] == "sys":
         env.simtime = simclock.SimTime(spec["os0"])
@@ -489,6 +508,9 @@ def _setup(spec):
         env.clock = FakeClock(_inst(env, init["now"]))
     else:
         env.clock = FakeClock(_inst(env, init["now"]), _dur(init["auto"]))
+    env.clock2 = FakeClock(_inst(env, 946684800 * 10**9))
+    env.mkz_zone = DateTimeZoneProviders.tzdb["Europe/London"]
+    env.mkz_cal = CalendarSystem.for_id("Julian")
     env.zones = []
     env.zclocks = []
     for i, z in enumerate(spec["zoned"]):
@@ -539,6 +561,16 @@ def _do_op(env, sched, ti, oi, op):
         return None
     if k == "z":
         return _getter(env.zclocks[op[1]], op[2])()
+    if k == "mkz":
+        # build a ZonedClock from one of two clocks inside the simulation; report what it wraps (no read happens)
+        clk = env.clock if op[1] == 0 else env.clock2
+        if op[2] == "utc":
+            zc = clk.in_utc()
+        elif op[2] == "zone":
+            zc = clk.in_zone(env.mkz_zone)
+        else:
+            zc = clk.in_zone(env.mkz_zone, env.mkz_cal)
+        return [zc.clock is clk, zc.zone.id, zc.calendar.id]
     if k == "sysread":
         return env.SystemClock.instance.get_current_instant()
     if k == "sysinst":
@@ -549,6 +581,11 @@ def _do_op(env, sched, ti, oi, op):
         return None
     if k == "sysset":
         env.simtime.set(op[1])
+        sched.yield_point()
+        return None
+    if k == "sysmidnight":
+        # the OS clock jumps to a UTC day boundary relative to the day it is in now (next midnight, this one, the one after), +-1 ns
+        env.simtime.set((env.simtime.now_ns // NS_DAY + op[1]) * NS_DAY + op[2])
         sched.yield_point()
         return None
     if k == "sysyield":
@@ -625,6 +662,8 @@ def execute(spec):
                 c = ["ok", v.to_nanoseconds()]
             elif op[0] == "z":
                 c = ["ok", _canon(env, op[2], v)]
+            elif op[0] == "mkz":
+                c = ["ok", v]
             else:
                 c = ["ok", None if v is None else repr(v)]
         else:
@@ -634,6 +673,13 @@ def execute(spec):
     if spec["mode"] == "seq":
         return _judge_seq(env, hist, out)
     return _judge_conc(env, hist, out)
+
+
+def _check_denormalised(env, out):
+    if env.denormalised:
+        _viol(out, "denormalised instant returned", f"a returned Instant has the right distance from the epoch ({env.denormalised[0]} ns) but is not equal to / does not hash like that instant")  # fmt: skip
+        return True
+    return False
 
 
 def _viol(out, sig, detail):
@@ -693,6 +739,10 @@ def _judge_seq(env, hist, out):
             probes["range_ops"] = probes.get("range_ops", 0) + 1
             if c[0] == "exc" and c[1] not in _RANGE_EXC:
                 return _viol(out, f"exception {op[0]} {c[1]}", f"op {oi} {op}: out-of-range result raised {c[1]}, expected OverflowError/ValueError")  # fmt: skip
+            if c[0] == "ok" and op[0] == "adv":
+                # the model's value after this advance is not a representable Instant: the clock cannot "follow the model" by
+                # silently holding it - the operation has to be refused
+                return _viol(out, f"out-of-range {_opname(op)} accepted", f"op {oi} {op}: the clock accepted an advance that takes it outside the range of Instant (model value {pre_now} + {Model.amount(op)})")  # fmt: skip
             if c[0] == "ok" and op[0] in ("read", "z"):
                 exp = ["ok", pre_now] if op[0] == "read" else _render(env, pre_now, op[1], op[2])
                 if exp[0] == "ok" and c != exp:
@@ -714,6 +764,8 @@ def _judge_seq(env, hist, out):
                 out["signature"] = "arith-discrepancy (C03 domain)"
                 return out
             return _viol(out, f"mismatch {_opname(op)}", f"op {oi} {op}: got {c} but the model predicts {exp} (model now={p[1]}, auto={model.auto})")  # fmt: skip
+    if _check_denormalised(env, out):
+        return out
     out["verdict"] = "ok"
     return out
 
@@ -768,7 +820,7 @@ def _judge_conc(env, hist, out):
     if spec["mode"] == "readers":
         seen = {}
         for ti, oi, inv, ret, op, c in hist:
-            if c[0] != "ok":
+            if c[0] != "ok" or op[0] not in ("read", "z"):
                 continue
             v = c[1] if op[0] == "read" or op[2] == "instant" else c[1][1]
             if v in seen:
@@ -791,6 +843,9 @@ def _judge_conc(env, hist, out):
             return state if c[1] == auto else None
         if k == "sauto":
             return (now, op[1])
+        if k == "mkz":
+            exp = [True, "UTC" if op[2] == "utc" else "Europe/London", "Julian" if op[2] == "cal" else "ISO"]
+            return state if c[1] == exp else None
         return None
 
     h = [(inv, ret, op, c) for ti, oi, inv, ret, op, c in hist]
@@ -824,6 +879,8 @@ def _judge_conc(env, hist, out):
     if ok is None:
         out["verdict"] = "inconclusive"
         out["signature"] = "linearizability-budget"
+        return out
+    if _check_denormalised(env, out):
         return out
     if not ok:
         stuck = [hist[i][4] for i in range(len(hist)) if i not in info["order"]][:4]
@@ -884,6 +941,8 @@ def _judge_sys(env, out, real0, real1):
         if not INST_MIN <= got <= INST_MAX:
             return _viol(out, "sysclock-out-of-range-accepted", f"returned {got}")
         probes["os_reads_matched"] = probes.get("os_reads_matched", 0) + 1
+    if _check_denormalised(env, out):
+        return out
     if len(insts) > 1:
         return _viol(out, "sysclock-instance-not-singleton", f"{len(insts)} distinct SystemClock.instance objects observed in one run")  # fmt: skip
     out["verdict"] = "ok"
